@@ -3,7 +3,9 @@
 TRUSTED_BASE = [
     "Coq 8.16.1 kernel and vm_compute (no native_compute); full .vo build via coq_makefile/make",
     "no axioms declared; Print Assumptions of every property theorem is copied into this file",
-    "translator (harness/cmd/vharness translate*.go): go/parser based extraction of constants, op.Swap/op.String tables, regular expressions (via regexp/syntax), lock/write audits",
+    "translator (harness/cmd/vharness translate*.go, audit.go): go/parser based extraction of constants, op.Swap/op.String tables, regular expressions (via regexp/syntax), the Register* calls of init(), lock / tree-write / source-write / package-level-store audits, the calls of CtxPool.Put",
+    "thorough tier: coqchk -o over the compiled property file and its whole closure (must report Axioms: <none>)",
+    "hypotheses of the program-level theorems about user-registered functions (honest / strict: a function's error is EUser of its own call number, never a loop signal) are proved of the harness's functions (testU_honest, testU_strict); the Go twins of those functions are trusted to behave as their Coq definitions (checked by the correspondence on every case)",
     "correspondence harness (harness/cmd/vharness), its canonicalisation of observables, the verif-tagged read-only hooks in /repo/verif_hooks.go, and this runner",
     "modelled, not verified: Go runtime, regexp engine, strconv, hash/crc32, hash/crc64, sync primitives, and the dependencies inspector, vector, jsonvector, vector_inspector, x2bytes, bytebuf, bytealg",
 ]
